@@ -2,7 +2,7 @@ SPECIFICATION Spec
 CONSTANTS
   Alphabet = {"a", "1", "/"}
   MaxLen = 6
-  QAlphabet = {"x", "%", "4", "1", "2", "F", "G"}
+  QAlphabet = {"x", "%", "4", "1", "2", "F", "G", "A", "5"}
   QMaxLen = 5
 INVARIANTS Sane EmitCase
 CHECK_DEADLOCK FALSE
